@@ -361,6 +361,11 @@ impl Cartesian<'_> {
             return Err("Collision on the planned path".into());
         }
 
+        if !self.include_linear_interpolation {
+            // Interpolated poses were needed for planning and checking only
+            trace.retain(|step| !step.flags.contains(PathFlags::LIN_INTERP));
+        }
+
         Ok(trace)
     }
 
